@@ -22,6 +22,9 @@ EXPLANATION = (
     'requester emits CANCEL the local producer is cancelled on that path; (g) one FIFO per stream: when requests can '
     'be diverted to the lease hold queue, no other frame of a requester reaches the send queue without passing the '
     'same diversion. Not decided: legality over all histories (a trace property).')
+EXPLANATION_ADDED = ('(h) nothing after the terminal frame: the request-response callback and the Rx adapters (done marking, cancel only when not done, request sent inside the cancellable task); MAX_REQUEST_N is 2^31-1.')
+EXPLANATION = EXPLANATION.replace(' Not decided', ' ' + EXPLANATION_ADDED + ' Not decided', 1) \
+    if ' Not decided' in EXPLANATION else EXPLANATION + ' ' + EXPLANATION_ADDED
 ASSUMPTIONS = COMMON_ASSUMPTIONS
 
 
